@@ -4,6 +4,7 @@
 # failure there, so one slice that does not build cannot take the others down.
 cd "$(dirname "$0")"
 export CARGO_NET_OFFLINE=true
+unset RUSTFLAGS CARGO_ENCODED_RUSTFLAGS CARGO_BUILD_RUSTFLAGS CARGO_TARGET_DIR CARGO_BUILD_TARGET_DIR
 mkdir -p work build evidence replays
 ./coq/mkproject.sh
 timeout 3400 make -C coq -k -j16 >work/setup-coq.log 2>&1 || { echo "setup: some Coq files did not build (see work/setup-coq.log):"; grep -E "^(File|Error)" work/setup-coq.log | head -20; }
